@@ -72,6 +72,7 @@ PROPS = {
                       'restore_f6_s2': {'kind': 'bounded', 'bound': 'free list of exactly 6 entries, saved stack of exactly 2', 'fn': 'RegisterAllocator::restore', 'tier': 'thorough'},
                   }, 'replay_test': 'verif_replay_builder_restore'}],
         'oracles': [BUILDER_ORACLE],
+        'side': {'unit': 'side_c10', 'mount': 'src/lib.rs', 'mod': 'verif_side_c10', 'test': 'verif_side_c10', 'iters_quick': 4, 'iters_thorough': 60},
         'obl_exclude': C10_EXCLUDE,
         'trusted_base': COMMON_TB,
         'assumptions': [
